@@ -55,7 +55,9 @@ Log(op, a, f, n, c) == hist' = Append(hist, [op |-> op, a |-> a, f |-> f, n |-> 
 Busy(p) == \E a \in Agents, f \in Fids : open[a][f] = p
 Put(p, v) == [q \in (DOMAIN fs) \cup {p} |-> IF q = p THEN v ELSE fs[q]]
 
-Open(a, f, n) ==   \* download-open callback for file id f with the agent-supplied name n
+Announced == {"zero", "short", "ample"}    \* the size the agent announces: 0, less than it is going to send, more
+Open(a, f, n, sz) ==   \* download-open callback for file id f with the agent-supplied name n; the announced size decides nothing:
+                       \* the content is what arrives between open and close
     /\ open[a][f] = <<>>
     /\ ~Busy(Target(a, n))
     /\ IF Inside(a, n) /\ Creatable(n) /\ ~Clash(a, n)
@@ -63,7 +65,7 @@ Open(a, f, n) ==   \* download-open callback for file id f with the agent-suppli
             /\ open' = [open EXCEPT ![a][f] = Target(a, n)]
             /\ last' = [op |-> "Open", ok |-> TRUE]
        ELSE /\ UNCHANGED <<fs, open>> /\ last' = [op |-> "Open", ok |-> FALSE]
-    /\ Log("Open", a, f, n, "")
+    /\ Log("Open", a, f, n, sz)
 
 Write(a, f, c) ==  \* a chunk for file id f: appended if f is open, written nowhere otherwise
     /\ IF open[a][f] # <<>>
@@ -94,13 +96,20 @@ CraftedFile(a, cls) ==
     /\ UNCHANGED <<fs, open>> /\ last' = [op |-> "CraftedFile", ok |-> FALSE]
     /\ Log("CraftedFile", a, 0, <<>>, cls)
 
+(* the teamserver stops and starts again on its database: the sessions come back, the new run has a loot tree of its own
+   (fs is the current tree: empty again), transfers that were in progress are forgotten.  Afterwards everything above holds
+   as before - the restored sessions' files land in their own directories of the current tree *)
+Restart == /\ fs' = <<>> /\ open' = [a \in Agents |-> [f \in Fids |-> <<>>]]
+           /\ last' = [op |-> "Restart", ok |-> TRUE]
+           /\ Log("Restart", "", 0, <<>>, "")
 Next == /\ Len(hist) < MaxOps
         /\ \E a \in Agents :
-             \/ \E f \in Fids, n \in Names : Open(a, f, n)
+             \/ \E f \in Fids, n \in Names, sz \in Announced : Open(a, f, n, sz)
              \/ \E f \in Fids, c \in Chunks : Write(a, f, c)
              \/ \E f \in Fids : Close(a, f)
              \/ \E n \in Names, c \in Chunks : ServiceFile(a, n, c)
              \/ \E cls \in CraftedIds : CraftedFile(a, cls)
+             \/ (Restart /\ \A i \in 1..Len(hist) : hist[i].op # "Restart")        \* (once per history)
 Spec == Init /\ [][Next]_vars
 -----------------------------------------------------------------------------
 (* C07 *)
